@@ -129,6 +129,80 @@ def _iter_sentinel_loop(st: ast.stmt) -> Optional[List[ast.stmt]]:
     return [loop]
 
 
+def _local_callables(fn: ast.AST) -> Dict[str, ast.AST]:
+    """locals of `fn` that are bound exactly once, to a nested def, a lambda, or (transitively) to another such local"""
+    binds: Dict[str, List[ast.AST]] = {}
+    for n in ast.walk(fn):
+        if n is fn:
+            continue
+        if isinstance(n, (ast.FunctionDef, ast.AsyncFunctionDef, ast.ClassDef)):
+            binds.setdefault(n.name, []).append(n)
+        elif isinstance(n, ast.Name) and isinstance(n.ctx, (ast.Store, ast.Del)):
+            binds.setdefault(n.id, []).append(n)
+        elif isinstance(n, ast.arg):
+            binds.setdefault(n.arg, []).append(n)
+    direct: Dict[str, ast.AST] = {}
+    alias: Dict[str, str] = {}
+    # only statements of fn itself (not of nested defs) define its locals
+    def own_stmts(stmts):
+        for st in stmts:
+            yield st
+            if isinstance(st, (ast.FunctionDef, ast.AsyncFunctionDef, ast.ClassDef)):
+                continue
+            for fld in ("body", "orelse", "finalbody"):
+                sub = getattr(st, fld, None)
+                if isinstance(sub, list) and sub and isinstance(sub[0], ast.stmt):
+                    yield from own_stmts(sub)
+            if isinstance(st, ast.Try):
+                for h in st.handlers:
+                    yield from own_stmts(h.body)
+    for st in own_stmts(fn.body):
+        if isinstance(st, (ast.FunctionDef, ast.AsyncFunctionDef)) and len(binds.get(st.name, [])) == 1:
+            direct[st.name] = st
+        elif isinstance(st, ast.Assign) and len(st.targets) == 1 and isinstance(st.targets[0], ast.Name) and len(binds.get(st.targets[0].id, [])) == 1:
+            if isinstance(st.value, ast.Lambda):
+                direct[st.targets[0].id] = st.value
+            elif isinstance(st.value, ast.Name):
+                alias[st.targets[0].id] = st.value.id
+    out = dict(direct)
+    for a in alias:
+        seen = set()
+        b = a
+        while b in alias and b not in seen:
+            seen.add(b)
+            b = alias[b]
+        if b in direct:
+            out[a] = direct[b]
+    return out
+
+
+class _ApplyLambdas(ast.NodeTransformer):
+    """f(a, b) with the local f bound once to `lambda x, y: E` and plain arguments is E[x := a, y := b]"""
+    def __init__(self, table: Dict[str, ast.AST]):
+        self.table = table
+        self.changed = False
+
+    def visit_FunctionDef(self, n):
+        return n
+
+    visit_AsyncFunctionDef = visit_FunctionDef
+    visit_ClassDef = visit_FunctionDef
+
+    def visit_Call(self, n: ast.Call):
+        self.generic_visit(n)
+        lam = self.table.get(n.func.id) if isinstance(n.func, ast.Name) else None
+        if not isinstance(lam, ast.Lambda) or n.keywords or any(isinstance(a, ast.Starred) for a in n.args):
+            return n
+        a = lam.args
+        params = [x.arg for x in a.posonlyargs + a.args]
+        if a.vararg or a.kwarg or a.kwonlyargs or a.defaults or len(params) != len(n.args) or not all(_simple(x) for x in n.args):
+            return n
+        if any(isinstance(x, (ast.Lambda, ast.NamedExpr, ast.ListComp, ast.SetComp, ast.DictComp, ast.GeneratorExp)) for x in ast.walk(lam.body)):
+            return n
+        self.changed = True
+        return ast.copy_location(_Subst(dict(zip(params, n.args)), {}).visit(copy.deepcopy(lam.body)), n)
+
+
 def fuse_comprehension_loops(fn: ast.AST) -> bool:
     """`P = (ELT for .. in .. if ..)` (generator expression or list comprehension bound once to a local that is used nowhere
     else) followed by `for TGT in P: BODY` (no else, no break that leaves it) is the comprehension's own loop nest with
@@ -272,12 +346,23 @@ class Expander:
         elif isinstance(f, ast.Attribute) and isinstance(f.value, ast.Name) and cls is not None and f.value.id in ("self", "cls", cls):
             qual = f"{cls}.{f.attr}"
             recv = f.value
-        if qual is None or qual in self.known or qual in stack or qual not in self.mod.defs:
-            return None
-        cands = [x for x in self.mod.defs[qual] if isinstance(x, (ast.FunctionDef, ast.AsyncFunctionDef))]
-        if len(cands) != 1 or len(self.mod.defs[qual]) != 1:
-            return None
-        h = cands[0]
+        local = getattr(self, "_locals", {}).get(f.id) if isinstance(f, ast.Name) else None
+        if isinstance(local, (ast.FunctionDef, ast.AsyncFunctionDef)):
+            # a nested def of the function being expanded (possibly reached through a local alias): its free variables are the
+            # enclosing function's locals, read at call time - exactly what inlining at the call site does
+            if f"<local>{local.name}" in stack:
+                return None
+            qual = f"<local>{local.name}"
+            h = local
+            if any(isinstance(n, (ast.Return,)) and n.value is not None for n in ast.walk(h)) and False:
+                return None
+        else:
+            if qual is None or qual in self.known or qual in stack or qual not in self.mod.defs:
+                return None
+            cands = [x for x in self.mod.defs[qual] if isinstance(x, (ast.FunctionDef, ast.AsyncFunctionDef))]
+            if len(cands) != 1 or len(self.mod.defs[qual]) != 1:
+                return None
+            h = cands[0]
         if isinstance(h, ast.AsyncFunctionDef) != awaited:
             return None
         if h.name.startswith("__") and h.name.endswith("__"):
@@ -601,7 +686,15 @@ class Expander:
             for _ in range(MAX_ROUNDS):
                 changed = [False]
                 names = {n.id for n in ast.walk(work) if isinstance(n, ast.Name)} | {a.arg for a in ast.walk(work) if isinstance(a, ast.arg)}
+                self._locals = _local_callables(work)
+                if any(isinstance(v, ast.Lambda) for v in self._locals.values()):
+                    ap = _ApplyLambdas(self._locals)
+                    work.body = [ap.visit(st) for st in work.body]
+                    if ap.changed:
+                        changed[0] = True
+                        ast.fix_missing_locations(work)
                 work.body = self._block(work.body, cls, names, (qual,), changed)
+                self._locals = {}
                 if not changed[0]:
                     break
                 any_change = True
@@ -613,6 +706,9 @@ class Expander:
         return result
 
     def _has_candidate(self, fn: ast.AST, cls: Optional[str], qual: str) -> bool:
+        loc = _local_callables(fn)
+        if loc and any(isinstance(n, ast.Call) and isinstance(n.func, ast.Name) and n.func.id in loc for n in ast.walk(fn)):
+            return True
         for n in ast.walk(fn):
             if isinstance(n, ast.Expr) and _dict_update_as_stores(n) is not None:
                 return True
